@@ -4,6 +4,7 @@ from __future__ import annotations
 import os
 import struct
 
+from vf import pins
 from vf.core import EnumPart, HypPart, Oracle
 from vf.gen import mbi as G
 from vf.ref import mbi_rom
@@ -376,4 +377,5 @@ def parts(ctx):
     return [
         EnumPart("matrix", _matrix_count, _matrix_item, run_case, exhaustive=False),
         HypPart("random", G.case_strategy(G.all_classes(True), max_len), run_case, {"quick": 640, "thorough": 24000}),
+        pins.part(["mbi"], 1000),  # which image kinds a device's ROM takes and what they are made of
     ]
